@@ -255,6 +255,7 @@ func (i *sparseArrayPropIter) next() (propIterItem, iterNextFunc) {
 		}
 	}
 
+	i.a.getLengthProp() // the 'length' item refers to the property cell
 	return i.a.baseObject.iterateStringKeys()()
 }
 
